@@ -34,6 +34,108 @@ Definition length_ok (s : stream) : Prop :=
 Definition unfiltered (s : stream) : Prop :=
   dict_get (s_dict s) P_Filter = None /\ dict_get (s_dict s) P_DecodeParms = None.
 
+(* ---------- DecodeParms and Filter plumbing ---------- *)
+
+Theorem params_for_spec d i : params_for d i = spec_params (dict_get d P_DecodeParms) i.
+Proof.
+  unfold params_for, spec_params. change K_DecodeParms_ with P_DecodeParms.
+  destruct (dict_get d P_DecodeParms) as [[]|]; reflexivity.
+Qed.
+
+Lemma names_of_names names : names_of (map OName names) = Ok names.
+Proof. induction names as [|n names IH]; cbn [map names_of]; [reflexivity | rewrite IH; reflexivity]. Qed.
+
+Theorem filters_spec d o names :
+  dict_get d P_Filter = Some o -> filter_entry names o -> filters d = Ok names.
+Proof.
+  unfold filters. change K_Filter with P_Filter. intros -> [-> | (n & -> & ->)]; [apply names_of_names | reflexivity].
+Qed.
+
+Lemma early_change_spec p e : early_fit p e -> early_change p = e.
+Proof.
+  unfold early_fit, early_change. change K_EarlyChange with P_EarlyChange. change EARLY_CHANGE_DEFAULT with true.
+  destruct p as [d|]; [|congruence].
+  destruct (dict_get d P_EarlyChange) as [[| |z| | | | | | |]|]; try tauto; try congruence.
+  destruct z as [|[]|]; try tauto; intros ->; reflexivity.
+Qed.
+
+Lemma get_int_parm p k z : get_int p k z = int_parm (Some p) k z.
+Proof. reflexivity. Qed.
+
+(* ---------- predictor geometry ---------- *)
+
+Lemma geometry pp : legal_pp pp ->
+  (0 < bytes_per_pixel pp)%nat /\
+  bytes_per_row pp = (bytes_per_pixel pp * Z.to_nat (pp_columns pp))%nat /\
+  (Z.to_N (Z.max COLORS_MIN (pp_colors pp)) * Z.to_N (Z.max BITS_MIN (pp_bits pp)) / 8)%N = N.of_nat (bytes_per_pixel pp) /\
+  (Z.to_N (Z.max COLORS_MIN (pp_colors pp)) * Z.to_N (Z.max BITS_MIN (pp_bits pp)) <= USIZE_MAX)%N /\
+  Z.to_N (Z.max COLUMNS_MIN (pp_columns pp)) = N.of_nat (Z.to_nat (pp_columns pp)) /\
+  (N.of_nat (bytes_per_row pp) <= USIZE_MAX)%N.
+Proof.
+  unfold legal_pp, bytes_per_pixel, bytes_per_row, COLORS_MIN, BITS_MIN, COLUMNS_MIN, USIZE_MAX.
+  destruct pp as [pr w c b]. cbn [pp_predictor pp_columns pp_colors pp_bits].
+  intros (_ & Hw & Hc & Hb & Hpix & Hlim).
+  assert (Hcw : (c <= c * w)%Z) by nia.
+  assert (Hm : (0 <= c * w)%Z) by nia.
+  destruct Hb as [-> | ->].
+  - change (Z.to_N (Z.max 8 8)) with 8%N.
+    replace (c * 8 * w)%Z with (c * w * 8)%Z in * by ring.
+    set (m := (c * w)%Z) in *.
+    assert (E1 : ((c * 8 + 7) / 8 = c)%Z) by lia.
+    assert (E2 : ((m * 8 + 7) / 8 = m)%Z) by lia.
+    rewrite E1, E2. rewrite Z.max_r by lia. unfold m. rewrite Z2Nat.inj_mul by lia.
+    repeat split; try lia.
+  - change (Z.to_N (Z.max 8 16)) with 16%N.
+    replace (c * 16 * w)%Z with (c * w * 2 * 8)%Z in * by ring.
+    set (m := (c * w)%Z) in *.
+    assert (E1 : ((c * 16 + 7) / 8 = c * 2)%Z) by lia.
+    assert (E2 : ((m * 2 * 8 + 7) / 8 = m * 2)%Z) by lia.
+    rewrite E1, E2. rewrite Z.max_r by lia.
+    replace (m * 2)%Z with (c * 2 * w)%Z by (unfold m; ring).
+    rewrite (Z2Nat.inj_mul (c * 2) w) by lia.
+    repeat split; try lia.
+Qed.
+
+(* Predictor 10..15 with any Columns, Colors and BitsPerComponent 8 | 16: the decoder is handed the geometry
+   of the standard *)
+Theorem predictor_params p pp data :
+  legal_pp pp -> parms_describe (Some p) pp ->
+  decompress_predictor data (Some p) =
+  decode_frame data (N.of_nat (bytes_per_pixel pp)) (N.of_nat (Z.to_nat (pp_columns pp))).
+Proof.
+  intros L (D1 & D2 & D3 & D4). destruct (geometry pp L) as (_ & _ & G1 & G2 & G3 & _).
+  unfold decompress_predictor. rewrite !get_int_parm.
+  change K_Predictor with P_Predictor. change PRED_DEFAULT with 1%Z.
+  change K_COLUMNS with P_Columns. change COLUMNS_DEFAULT with 1%Z.
+  change K_COLORS with P_Colors. change COLORS_DEFAULT with 1%Z.
+  change K_BITS with P_BitsPerComponent. change BITS_DEFAULT with 8%Z.
+  rewrite D1, D2, D3, D4. destruct L as (L1 & _).
+  replace ((PRED_LO <=? pp_predictor pp)%Z && (pp_predictor pp <=? PRED_HI)%Z) with true
+    by (symmetry; apply andb_true_iff; unfold PRED_LO, PRED_HI; split; apply Z.leb_le; lia).
+  cbv zeta. replace (USIZE_MAX <? _)%N with false by (symmetry; apply N.ltb_ge; exact G2).
+  rewrite G1, G3. reflexivity.
+Qed.
+
+Theorem predictor_absent p data :
+  int_parm p P_Predictor 1 = 1%Z -> decompress_predictor data p = Ok data.
+Proof.
+  destruct p as [p|]; [|reflexivity]. unfold decompress_predictor. rewrite get_int_parm.
+  change K_Predictor with P_Predictor. change PRED_DEFAULT with 1%Z. intros ->. reflexivity.
+Qed.
+
+Lemma undo_prediction pr p data payload :
+  predicted pr data payload -> parms_fit pr p -> decompress_predictor payload p = Ok data.
+Proof.
+  destruct pr as [r|]; cbn [predicted parms_fit].
+  - intros (L & -> & HR & HT & HV & ->) D.
+    destruct p as [p|].
+    { rewrite (predictor_params p (pr_parms r)) by assumption.
+      destruct (geometry _ L) as (G0 & G1 & _ & _ & _ & G5). rewrite G1 in *.
+      apply decode_frame_encode_frame; assumption. }
+    destruct D as (D1 & _). cbn [int_parm] in D1. destruct L as (L1 & _). lia.
+  - intros -> D. apply predictor_absent. exact D.
+Qed.
+
 Section Oracles.
   Variable inflate : bytes -> bytes.
   Variable lzw : bool -> bytes -> bytes.
@@ -186,108 +288,6 @@ Section Oracles.
     split; [exact U|]. rewrite plain_unfiltered by apply U. rewrite HC. reflexivity.
   Qed.
 
-  (* ---------- DecodeParms and Filter plumbing ---------- *)
-
-  Theorem params_for_spec d i : params_for d i = spec_params (dict_get d P_DecodeParms) i.
-  Proof.
-    unfold params_for, spec_params. change K_DecodeParms_ with P_DecodeParms.
-    destruct (dict_get d P_DecodeParms) as [[]|]; reflexivity.
-  Qed.
-
-  Lemma names_of_names names : names_of (map OName names) = Ok names.
-  Proof. induction names as [|n names IH]; cbn [map names_of]; [reflexivity | rewrite IH; reflexivity]. Qed.
-
-  Theorem filters_spec d o names :
-    dict_get d P_Filter = Some o -> filter_entry names o -> filters d = Ok names.
-  Proof.
-    unfold filters. change K_Filter with P_Filter. intros -> [-> | (n & -> & ->)]; [apply names_of_names | reflexivity].
-  Qed.
-
-  Lemma early_change_spec p e : early_fit p e -> early_change p = e.
-  Proof.
-    unfold early_fit, early_change. change K_EarlyChange with P_EarlyChange. change EARLY_CHANGE_DEFAULT with true.
-    destruct p as [d|]; [|congruence].
-    destruct (dict_get d P_EarlyChange) as [[| |z| | | | | | |]|]; try tauto; try congruence.
-    destruct z as [|[]|]; try tauto; intros ->; reflexivity.
-  Qed.
-
-  Lemma get_int_parm p k z : get_int p k z = int_parm (Some p) k z.
-  Proof. reflexivity. Qed.
-
-  (* ---------- predictor geometry ---------- *)
-
-  Lemma geometry pp : legal_pp pp ->
-    (0 < bytes_per_pixel pp)%nat /\
-    bytes_per_row pp = (bytes_per_pixel pp * Z.to_nat (pp_columns pp))%nat /\
-    (Z.to_N (Z.max COLORS_MIN (pp_colors pp)) * Z.to_N (Z.max BITS_MIN (pp_bits pp)) / 8)%N = N.of_nat (bytes_per_pixel pp) /\
-    (Z.to_N (Z.max COLORS_MIN (pp_colors pp)) * Z.to_N (Z.max BITS_MIN (pp_bits pp)) <= USIZE_MAX)%N /\
-    Z.to_N (Z.max COLUMNS_MIN (pp_columns pp)) = N.of_nat (Z.to_nat (pp_columns pp)) /\
-    (N.of_nat (bytes_per_row pp) < ALLOC_FAILS_FROM)%N.
-  Proof.
-    unfold legal_pp, bytes_per_pixel, bytes_per_row, COLORS_MIN, BITS_MIN, COLUMNS_MIN, USIZE_MAX, ALLOC_FAILS_FROM.
-    destruct pp as [pr w c b]. cbn [pp_predictor pp_columns pp_colors pp_bits].
-    intros (_ & Hw & Hc & Hb & Hlim).
-    assert (Hcw : (c <= c * w)%Z) by nia.
-    assert (Hm : (0 <= c * w)%Z) by nia.
-    destruct Hb as [-> | ->].
-    - change (Z.to_N (Z.max 8 8)) with 8%N.
-      replace (c * 8 * w)%Z with (c * w * 8)%Z in * by ring.
-      set (m := (c * w)%Z) in *.
-      assert (E1 : ((c * 8 + 7) / 8 = c)%Z) by lia.
-      assert (E2 : ((m * 8 + 7) / 8 = m)%Z) by lia.
-      rewrite E1, E2. rewrite Z.max_r by lia. unfold m. rewrite Z2Nat.inj_mul by lia.
-      repeat split; try lia.
-    - change (Z.to_N (Z.max 8 16)) with 16%N.
-      replace (c * 16 * w)%Z with (c * w * 2 * 8)%Z in * by ring.
-      set (m := (c * w)%Z) in *.
-      assert (E1 : ((c * 16 + 7) / 8 = c * 2)%Z) by lia.
-      assert (E2 : ((m * 2 * 8 + 7) / 8 = m * 2)%Z) by lia.
-      rewrite E1, E2. rewrite Z.max_r by lia.
-      replace (m * 2)%Z with (c * 2 * w)%Z by (unfold m; ring).
-      rewrite (Z2Nat.inj_mul (c * 2) w) by lia.
-      repeat split; try lia.
-  Qed.
-
-  (* Predictor 10..15 with any Columns, Colors and BitsPerComponent 8 | 16: the decoder is handed the geometry
-     of the standard *)
-  Theorem predictor_params p pp data :
-    legal_pp pp -> parms_describe (Some p) pp ->
-    decompress_predictor data (Some p) =
-    decode_frame data (N.of_nat (bytes_per_pixel pp)) (N.of_nat (Z.to_nat (pp_columns pp))).
-  Proof.
-    intros L (D1 & D2 & D3 & D4). destruct (geometry pp L) as (_ & _ & G1 & G2 & G3 & _).
-    unfold decompress_predictor. rewrite !get_int_parm.
-    change K_Predictor with P_Predictor. change PRED_DEFAULT with 1%Z.
-    change K_COLUMNS with P_Columns. change COLUMNS_DEFAULT with 1%Z.
-    change K_COLORS with P_Colors. change COLORS_DEFAULT with 1%Z.
-    change K_BITS with P_BitsPerComponent. change BITS_DEFAULT with 8%Z.
-    rewrite D1, D2, D3, D4. destruct L as (L1 & _).
-    replace ((PRED_LO <=? pp_predictor pp)%Z && (pp_predictor pp <=? PRED_HI)%Z) with true
-      by (symmetry; apply andb_true_iff; unfold PRED_LO, PRED_HI; split; apply Z.leb_le; lia).
-    cbv zeta. replace (USIZE_MAX <? _)%N with false by (symmetry; apply N.ltb_ge; exact G2).
-    rewrite G1, G3. reflexivity.
-  Qed.
-
-  Theorem predictor_absent p data :
-    int_parm p P_Predictor 1 = 1%Z -> decompress_predictor data p = Ok data.
-  Proof.
-    destruct p as [p|]; [|reflexivity]. unfold decompress_predictor. rewrite get_int_parm.
-    change K_Predictor with P_Predictor. change PRED_DEFAULT with 1%Z. intros ->. reflexivity.
-  Qed.
-
-  Lemma undo_prediction pr p data payload :
-    predicted pr data payload -> parms_fit pr p -> decompress_predictor payload p = Ok data.
-  Proof.
-    destruct pr as [r|]; cbn [predicted parms_fit].
-    - intros (L & -> & HR & HT & HV & ->) D.
-      destruct p as [p|].
-      { rewrite (predictor_params p (pr_parms r)) by assumption.
-        destruct (geometry _ L) as (G0 & G1 & _ & _ & _ & G5). rewrite G1 in *.
-        apply decode_frame_encode_frame; assumption. }
-      destruct D as (D1 & _). cbn [int_parm] in D1. destruct L as (L1 & _). lia.
-    - intros -> D. apply predictor_absent. exact D.
-  Qed.
-
   (* ---------- one stage, then every chain ---------- *)
 
   Lemma name_dispatch :
@@ -300,7 +300,8 @@ Section Oracles.
   Theorem stage_decodes st p data enc :
     encodes_stage inflate lzw st data enc -> stage_parms_ok st p ->
     decode_one inflate lzw (stage_name st) p enc = Ok data.
-  Proof.
+  Proof using inflate lzw.
+    clear deflate.
     destruct name_dispatch as (E1 & E2 & E3 & E4 & E5 & E6).
     destruct st as [|pr|early pr]; cbn [encodes_stage stage_parms_ok stage_name]; unfold decode_one.
     - intros H _. rewrite E4, E5, E6. apply a85_agrees. exact H.
@@ -315,7 +316,8 @@ Section Oracles.
     (forall i st, nth_error stages i = Some st -> stage_parms_ok st (params_for d (index + i))) ->
     decode_loop inflate lzw d (map stage_name stages) index enc out =
     Ok (match stages with [] => out | _ => plain end).
-  Proof.
+  Proof using inflate lzw.
+    clear deflate.
     induction stages as [|st sts IH]; intros plain enc index out HC HP; [reflexivity|].
     inversion HC as [|? ? ? mid ? HC' HS]; subst.
     cbn [map decode_loop].
@@ -336,7 +338,8 @@ Section Oracles.
     encodes_chain inflate lzw stages plain content ->
     decompressed_content inflate lzw {| s_dict := d; s_content := content |} = Ok plain /\
     get_plain_content inflate lzw {| s_dict := d; s_content := content |} = Ok plain.
-  Proof.
+  Proof using inflate lzw.
+    clear deflate.
     intros HN HF HE HP HC.
     assert (D : decompressed_content inflate lzw {| s_dict := d; s_content := content |} = Ok plain).
     { unfold decompressed_content. cbn [s_dict s_content]. rewrite (filters_spec d fo _ HF HE).
